@@ -113,13 +113,21 @@ func c03iExpect(r *h.R, op string, got *EdwardsPoint, want []byte) {
 	}
 }
 
+// c03iOut returns a fresh receiver holding a stale, unrelated value (the
+// basepoint): a routine that forgets to (re)initialise its output, e.g. for an
+// empty sum, is caught.
+func c03iOut() *EdwardsPoint {
+	var p EdwardsPoint
+	return p.Set(ED25519_BASEPOINT_POINT)
+}
+
 func c03iFromPNiels(pn *projectiveNielsPoint) *EdwardsPoint {
 	var (
-		id, out EdwardsPoint
-		sum     completedPoint
+		id  EdwardsPoint
+		sum completedPoint
 	)
 	id.Identity()
-	return out.setCompleted(sum.AddEdwardsProjectiveNiels(&id, pn))
+	return c03iOut().setCompleted(sum.AddEdwardsProjectiveNiels(&id, pn))
 }
 
 func c03iFromANiels(an *affineNielsPoint) *EdwardsPoint {
@@ -220,17 +228,16 @@ func c03iCheckModel(c c03iModelCase) h.Result {
 		pow = ref.Double(pow)
 	}
 	powE := pow.Encode()
-	var out EdwardsPoint
 
 	// public operations on rescaled operands
-	c03iExpect(r, "EdwardsPoint.Add", out.Add(p, q), sum)
-	c03iExpect(r, "EdwardsPoint.Sub", out.Sub(p, q), diff)
-	c03iExpect(r, "EdwardsPoint.Neg", out.Neg(p), ref.Neg(pr).Encode())
-	c03iExpect(r, "EdwardsPoint.Add(p,p)", out.Add(p, p), dbl)
-	c03iExpect(r, "EdwardsPoint.MulByCofactor", out.MulByCofactor(p), ref.MulByCofactor(pr).Encode())
-	c03iExpect(r, "EdwardsPoint.Sum", out.Sum([]*EdwardsPoint{p, q, p}), ref.Add(ref.Add(pr, qr), pr).Encode())
-	c03iExpect(r, "EdwardsPoint.double", out.double(p), dbl)
-	c03iExpect(r, "EdwardsPoint.mulByPow2", out.mulByPow2(p, c.K), powE)
+	c03iExpect(r, "EdwardsPoint.Add", c03iOut().Add(p, q), sum)
+	c03iExpect(r, "EdwardsPoint.Sub", c03iOut().Sub(p, q), diff)
+	c03iExpect(r, "EdwardsPoint.Neg", c03iOut().Neg(p), ref.Neg(pr).Encode())
+	c03iExpect(r, "EdwardsPoint.Add(p,p)", c03iOut().Add(p, p), dbl)
+	c03iExpect(r, "EdwardsPoint.MulByCofactor", c03iOut().MulByCofactor(p), ref.MulByCofactor(pr).Encode())
+	c03iExpect(r, "EdwardsPoint.Sum", c03iOut().Sum([]*EdwardsPoint{p, q, p}), ref.Add(ref.Add(pr, qr), pr).Encode())
+	c03iExpect(r, "EdwardsPoint.double", c03iOut().double(p), dbl)
+	c03iExpect(r, "EdwardsPoint.mulByPow2", c03iOut().mulByPow2(p, c.K), powE)
 	x := c03iScale(p, 0)
 	c03iExpect(r, "EdwardsPoint.mulByPow2(alias)", x.mulByPow2(x, c.K), powE)
 	r.Eval(3)
@@ -247,28 +254,27 @@ func c03iCheckModel(c c03iModelCase) h.Result {
 
 	// point models
 	var (
-		cp  completedPoint
-		pp  projectivePoint
-		pn  projectiveNielsPoint
-		an  affineNielsPoint
-		tmp EdwardsPoint
+		cp completedPoint
+		pp projectivePoint
+		pn projectiveNielsPoint
+		an affineNielsPoint
 	)
-	c03iExpect(r, "EdwardsPoint.setProjective", out.setProjective(pp.SetEdwards(p)), pr.Encode())
-	c03iExpect(r, "completedPoint.Double", out.setCompleted(cp.Double(pp.SetEdwards(p))), dbl)
-	c03iExpect(r, "projectivePoint.SetCompleted", out.setProjective(pp.SetCompleted(cp.Double(pp.SetEdwards(p)))), dbl)
+	c03iExpect(r, "EdwardsPoint.setProjective", c03iOut().setProjective(pp.SetEdwards(p)), pr.Encode())
+	c03iExpect(r, "completedPoint.Double", c03iOut().setCompleted(cp.Double(pp.SetEdwards(p))), dbl)
+	c03iExpect(r, "projectivePoint.SetCompleted", c03iOut().setProjective(pp.SetCompleted(cp.Double(pp.SetEdwards(p)))), dbl)
 	pn.SetEdwards(q)
 	an.SetEdwards(q)
 	c03iExpect(r, "projectiveNielsPoint.SetEdwards", c03iFromPNiels(&pn), qr.Encode())
 	c03iExpect(r, "affineNielsPoint.SetEdwards", c03iFromANiels(&an), qr.Encode())
-	c03iExpect(r, "completedPoint.AddEdwardsProjectiveNiels", out.setCompleted(cp.AddEdwardsProjectiveNiels(p, &pn)), sum)
-	c03iExpect(r, "completedPoint.SubEdwardsProjectiveNiels", out.setCompleted(cp.SubEdwardsProjectiveNiels(p, &pn)), diff)
-	c03iExpect(r, "completedPoint.AddEdwardsAffineNiels", out.setCompleted(cp.AddEdwardsAffineNiels(p, &an)), sum)
-	c03iExpect(r, "completedPoint.SubEdwardsAffineNiels", out.setCompleted(cp.SubEdwardsAffineNiels(p, &an)), diff)
+	c03iExpect(r, "completedPoint.AddEdwardsProjectiveNiels", c03iOut().setCompleted(cp.AddEdwardsProjectiveNiels(p, &pn)), sum)
+	c03iExpect(r, "completedPoint.SubEdwardsProjectiveNiels", c03iOut().setCompleted(cp.SubEdwardsProjectiveNiels(p, &pn)), diff)
+	c03iExpect(r, "completedPoint.AddEdwardsAffineNiels", c03iOut().setCompleted(cp.AddEdwardsAffineNiels(p, &an)), sum)
+	c03iExpect(r, "completedPoint.SubEdwardsAffineNiels", c03iOut().setCompleted(cp.SubEdwardsAffineNiels(p, &an)), diff)
 	// completed + Niels forms: 2p +- q
 	dblsum, dbldiff := ref.Add(ref.Double(pr), qr).Encode(), ref.Sub(ref.Double(pr), qr).Encode()
 	var cp2 completedPoint
-	c03iExpect(r, "completedPoint.AddCompletedAffineNiels", out.setCompleted(cp2.AddCompletedAffineNiels(cp.Double(pp.SetEdwards(p)), &an)), dblsum)
-	c03iExpect(r, "completedPoint.SubCompletedAffineNiels", out.setCompleted(cp2.SubCompletedAffineNiels(cp.Double(pp.SetEdwards(p)), &an)), dbldiff)
+	c03iExpect(r, "completedPoint.AddCompletedAffineNiels", c03iOut().setCompleted(cp2.AddCompletedAffineNiels(cp.Double(pp.SetEdwards(p)), &an)), dblsum)
+	c03iExpect(r, "completedPoint.SubCompletedAffineNiels", c03iOut().setCompleted(cp2.SubCompletedAffineNiels(cp.Double(pp.SetEdwards(p)), &an)), dbldiff)
 	pnNeg, anNeg := pn, an
 	pnNeg.ConditionalNegate(1)
 	anNeg.ConditionalNegate(1)
@@ -276,7 +282,6 @@ func c03iCheckModel(c c03iModelCase) h.Result {
 	c03iExpect(r, "affineNielsPoint.ConditionalNegate(1)", c03iFromANiels(&anNeg), ref.Neg(qr).Encode())
 	pnNeg.ConditionalNegate(0)
 	c03iExpect(r, "projectiveNielsPoint.ConditionalNegate(0)", c03iFromPNiels(&pnNeg), ref.Neg(qr).Encode())
-	_ = tmp
 
 	// multiples -8..15 of q for the lookup tables
 	mult := make(map[int][]byte, 24)
@@ -389,36 +394,35 @@ func c03iCheckMul(c c03iMulCase) h.Result {
 	sP := h.C03Expected([]h.C03Term{{P: c.P, S: c.S}}, c.Direct).Encode()
 	sB := h.C03Expected([]h.C03Term{{P: c03iSpecB, S: c.S}}, false).Encode()
 	sPs2B := h.C03Expected([]h.C03Term{{P: c.P, S: c.S}, {P: c03iSpecB, S: c.S2}}, c.Direct).Encode()
-	var out EdwardsPoint
 	ep := c03iExpand(p)
 	if c03iStockGeneric == nil {
 		c03iStockGeneric = unpackEdwardsBasepointTable()
 	}
 
-	c03iExpect(r, "edwardsMulGeneric", edwardsMulGeneric(&out, p, s), sP)
+	c03iExpect(r, "edwardsMulGeneric", edwardsMulGeneric(c03iOut(), p, s), sP)
 	x := c03iScale(p, 0)
 	c03iExpect(r, "edwardsMulGeneric(alias)", edwardsMulGeneric(x, x, s), sP)
 	tg := newEdwardsBasepointTableGeneric(p)
 	c03iExpect(r, "edwardsBasepointTableGeneric.Basepoint", tg.Basepoint(), pr.Encode())
-	c03iExpect(r, "edwardsBasepointTableGeneric.Mul", tg.Mul(&out, s), sP)
-	c03iExpect(r, "edwardsBasepointTableGeneric.Mul(packed-table)", c03iStockGeneric.Mul(&out, s), sB)
-	c03iExpect(r, "edwardsDoubleScalarMulBasepointVartimeGeneric", edwardsDoubleScalarMulBasepointVartimeGeneric(&out, s, p, s2), sPs2B)
-	c03iExpect(r, "edwardsDoubleScalarMulBasepointVartimeGenericInner", edwardsDoubleScalarMulBasepointVartimeGenericInner(&out, s, ep.inner, s2), sPs2B)
+	c03iExpect(r, "edwardsBasepointTableGeneric.Mul", tg.Mul(c03iOut(), s), sP)
+	c03iExpect(r, "edwardsBasepointTableGeneric.Mul(packed-table)", c03iStockGeneric.Mul(c03iOut(), s), sB)
+	c03iExpect(r, "edwardsDoubleScalarMulBasepointVartimeGeneric", edwardsDoubleScalarMulBasepointVartimeGeneric(c03iOut(), s, p, s2), sPs2B)
+	c03iExpect(r, "edwardsDoubleScalarMulBasepointVartimeGenericInner", edwardsDoubleScalarMulBasepointVartimeGenericInner(c03iOut(), s, ep.inner, s2), sPs2B)
 	if supportsVectorizedEdwards {
-		c03iExpect(r, "edwardsMulVector", edwardsMulVector(&out, p, s), sP)
+		c03iExpect(r, "edwardsMulVector", edwardsMulVector(c03iOut(), p, s), sP)
 		x = c03iScale(p, 0)
 		c03iExpect(r, "edwardsMulVector(alias)", edwardsMulVector(x, x, s), sP)
 		tv := newEdwardsBasepointTableVector(p)
 		c03iExpect(r, "edwardsBasepointTableVector.Basepoint", tv.Basepoint(), pr.Encode())
-		c03iExpect(r, "edwardsBasepointTableVector.Mul", tv.Mul(&out, s), sP)
-		c03iExpect(r, "edwardsBasepointTableVector.Mul(ED25519_BASEPOINT_TABLE)", ED25519_BASEPOINT_TABLE.innerVector.Mul(&out, s), sB)
-		c03iExpect(r, "edwardsDoubleScalarMulBasepointVartimeVector", edwardsDoubleScalarMulBasepointVartimeVector(&out, s, p, s2), sPs2B)
-		c03iExpect(r, "edwardsDoubleScalarMulBasepointVartimeVectorInner", edwardsDoubleScalarMulBasepointVartimeVectorInner(&out, s, ep.innerVector, s2), sPs2B)
+		c03iExpect(r, "edwardsBasepointTableVector.Mul", tv.Mul(c03iOut(), s), sP)
+		c03iExpect(r, "edwardsBasepointTableVector.Mul(ED25519_BASEPOINT_TABLE)", ED25519_BASEPOINT_TABLE.innerVector.Mul(c03iOut(), s), sB)
+		c03iExpect(r, "edwardsDoubleScalarMulBasepointVartimeVector", edwardsDoubleScalarMulBasepointVartimeVector(c03iOut(), s, p, s2), sPs2B)
+		c03iExpect(r, "edwardsDoubleScalarMulBasepointVartimeVectorInner", edwardsDoubleScalarMulBasepointVartimeVectorInner(c03iOut(), s, ep.innerVector, s2), sPs2B)
 	}
 	// the dispatchers
-	c03iExpect(r, "edwardsMul", edwardsMul(&out, p, s), sP)
-	c03iExpect(r, "edwardsBasepointTableMul", edwardsBasepointTableMul(&out, ED25519_BASEPOINT_TABLE, s), sB)
-	c03iExpect(r, "edwardsDoubleScalarMulBasepointVartime", edwardsDoubleScalarMulBasepointVartime(&out, s, p, s2), sPs2B)
+	c03iExpect(r, "edwardsMul", edwardsMul(c03iOut(), p, s), sP)
+	c03iExpect(r, "edwardsBasepointTableMul", edwardsBasepointTableMul(c03iOut(), ED25519_BASEPOINT_TABLE, s), sB)
+	c03iExpect(r, "edwardsDoubleScalarMulBasepointVartime", edwardsDoubleScalarMulBasepointVartime(c03iOut(), s, p, s2), sPs2B)
 	r.Eval(1)
 	if !bytes.Equal(c03iEnc(p), pr.Encode()) {
 		r.Fail("scalar-mul:operand-modified", "")
@@ -452,7 +456,7 @@ func c03iGenMSM(t *rapid.T, large bool) c03iMSMCase {
 	var n int
 	switch {
 	case large:
-		n = h.C03LargeN[int(h.Expand(rapid.Uint64().Draw(t, "nseed"), 1)[0])%len(h.C03LargeN)]
+		n = h.C03LargeN[h.C03UniformIndex(t, len(h.C03LargeN), "n")]
 	case rapid.IntRange(0, 9).Draw(t, "nk") < 6:
 		n = rapid.SampledFrom(h.C03SmallN).Draw(t, "n")
 	default:
@@ -556,27 +560,26 @@ func c03iCheckMSM(c c03iMSMCase) h.Result {
 	want := h.C03Expected(c.Terms, c.Direct).Encode()
 	k := c.Static
 	S, P, E := op.scs, op.pts, op.eps
-	var out EdwardsPoint
 
 	// Straus
-	c03iExpect(r, "edwardsMultiscalarMulStrausGeneric", edwardsMultiscalarMulStrausGeneric(&out, S, P), want)
-	c03iExpect(r, "edwardsMultiscalarMulStrausVartimeGeneric", edwardsMultiscalarMulStrausVartimeGeneric(&out, S, P), want)
-	c03iExpect(r, "expandedEdwardsMultiscalarMulStrausVartimeGeneric", expandedEdwardsMultiscalarMulStrausVartimeGeneric(&out, S[:k], E, S[k:], P[k:]), want)
+	c03iExpect(r, "edwardsMultiscalarMulStrausGeneric", edwardsMultiscalarMulStrausGeneric(c03iOut(), S, P), want)
+	c03iExpect(r, "edwardsMultiscalarMulStrausVartimeGeneric", edwardsMultiscalarMulStrausVartimeGeneric(c03iOut(), S, P), want)
+	c03iExpect(r, "expandedEdwardsMultiscalarMulStrausVartimeGeneric", expandedEdwardsMultiscalarMulStrausVartimeGeneric(c03iOut(), S[:k], E, S[k:], P[k:]), want)
 	// Pippenger at the natural window of this length
-	c03iExpect(r, "edwardsMultiscalarMulPippengerVartimeGeneric", edwardsMultiscalarMulPippengerVartimeGeneric(&out, nil, nil, S, P), want)
-	c03iExpect(r, "edwardsMultiscalarMulPippengerVartimeGeneric(static)", edwardsMultiscalarMulPippengerVartimeGeneric(&out, S[:k], P[:k], S[k:], P[k:]), want)
+	c03iExpect(r, "edwardsMultiscalarMulPippengerVartimeGeneric", edwardsMultiscalarMulPippengerVartimeGeneric(c03iOut(), nil, nil, S, P), want)
+	c03iExpect(r, "edwardsMultiscalarMulPippengerVartimeGeneric(static)", edwardsMultiscalarMulPippengerVartimeGeneric(c03iOut(), S[:k], P[:k], S[k:], P[k:]), want)
 	if supportsVectorizedEdwards {
-		c03iExpect(r, "edwardsMultiscalarMulStrausVector", edwardsMultiscalarMulStrausVector(&out, S, P), want)
-		c03iExpect(r, "edwardsMultiscalarMulStrausVartimeVector", edwardsMultiscalarMulStrausVartimeVector(&out, S, P), want)
-		c03iExpect(r, "expandedEdwardsMultiscalarMulStrausVartimeVector", expandedEdwardsMultiscalarMulStrausVartimeVector(&out, S[:k], E, S[k:], P[k:]), want)
-		c03iExpect(r, "edwardsMultiscalarMulPippengerVartimeVector", edwardsMultiscalarMulPippengerVartimeVector(&out, nil, nil, S, P), want)
-		c03iExpect(r, "edwardsMultiscalarMulPippengerVartimeVector(static)", edwardsMultiscalarMulPippengerVartimeVector(&out, S[:k], P[:k], S[k:], P[k:]), want)
+		c03iExpect(r, "edwardsMultiscalarMulStrausVector", edwardsMultiscalarMulStrausVector(c03iOut(), S, P), want)
+		c03iExpect(r, "edwardsMultiscalarMulStrausVartimeVector", edwardsMultiscalarMulStrausVartimeVector(c03iOut(), S, P), want)
+		c03iExpect(r, "expandedEdwardsMultiscalarMulStrausVartimeVector", expandedEdwardsMultiscalarMulStrausVartimeVector(c03iOut(), S[:k], E, S[k:], P[k:]), want)
+		c03iExpect(r, "edwardsMultiscalarMulPippengerVartimeVector", edwardsMultiscalarMulPippengerVartimeVector(c03iOut(), nil, nil, S, P), want)
+		c03iExpect(r, "edwardsMultiscalarMulPippengerVartimeVector(static)", edwardsMultiscalarMulPippengerVartimeVector(c03iOut(), S[:k], P[:k], S[k:], P[k:]), want)
 	}
 	// dispatchers that the public API only reaches on one side of a threshold
-	c03iExpect(r, "edwardsMultiscalarMulPippengerVartime", edwardsMultiscalarMulPippengerVartime(&out, S, P), want)
-	c03iExpect(r, "expandedEdwardsMultiscalarMulPippengerVartime", expandedEdwardsMultiscalarMulPippengerVartime(&out, S[:k], E, S[k:], P[k:]), want)
-	c03iExpect(r, "expandedEdwardsMultiscalarMulStrausVartime", expandedEdwardsMultiscalarMulStrausVartime(&out, S[:k], E, S[k:], P[k:]), want)
-	c03iExpect(r, "edwardsMultiscalarMulStrausVartime", edwardsMultiscalarMulStrausVartime(&out, S, P), want)
+	c03iExpect(r, "edwardsMultiscalarMulPippengerVartime", edwardsMultiscalarMulPippengerVartime(c03iOut(), S, P), want)
+	c03iExpect(r, "expandedEdwardsMultiscalarMulPippengerVartime", expandedEdwardsMultiscalarMulPippengerVartime(c03iOut(), S[:k], E, S[k:], P[k:]), want)
+	c03iExpect(r, "expandedEdwardsMultiscalarMulStrausVartime", expandedEdwardsMultiscalarMulStrausVartime(c03iOut(), S[:k], E, S[k:], P[k:]), want)
+	c03iExpect(r, "edwardsMultiscalarMulStrausVartime", edwardsMultiscalarMulStrausVartime(c03iOut(), S, P), want)
 
 	// wider Pippenger windows through filler terms
 	for _, target := range []int{c.Pad7, c.Pad8} {
@@ -615,9 +618,9 @@ func c03iCheckMSM(c c03iMSMCase) h.Result {
 		}
 		wantPad := h.C03Expected(terms, false).Encode()
 		r.Class(fmt.Sprintf("pippenger-w%d-padded", w))
-		c03iExpect(r, fmt.Sprintf("edwardsMultiscalarMulPippengerVartimeGeneric(w=%d,padded)", w), edwardsMultiscalarMulPippengerVartimeGeneric(&out, xs[:k], xp[:k], xs[k:], xp[k:]), wantPad)
+		c03iExpect(r, fmt.Sprintf("edwardsMultiscalarMulPippengerVartimeGeneric(w=%d,padded)", w), edwardsMultiscalarMulPippengerVartimeGeneric(c03iOut(), xs[:k], xp[:k], xs[k:], xp[k:]), wantPad)
 		if supportsVectorizedEdwards {
-			c03iExpect(r, fmt.Sprintf("edwardsMultiscalarMulPippengerVartimeVector(w=%d,padded)", w), edwardsMultiscalarMulPippengerVartimeVector(&out, xs[:k], xp[:k], xs[k:], xp[k:]), wantPad)
+			c03iExpect(r, fmt.Sprintf("edwardsMultiscalarMulPippengerVartimeVector(w=%d,padded)", w), edwardsMultiscalarMulPippengerVartimeVector(c03iOut(), xs[:k], xp[:k], xs[k:], xp[k:]), wantPad)
 		}
 	}
 
@@ -709,22 +712,22 @@ func c03iCheckRist(c c03iRistCase) h.Result {
 		}
 	}
 	s, s2 := c03iScalar(c.S), c03iScalar(c.S2)
-	var out RistrettoPoint
+	ro := func() *RistrettoPoint { return &RistrettoPoint{inner: *c03iOut()} } // stale receiver
 	expect("MarshalBinary(coset-representative)", p, pr)
-	expect("Add", out.Add(p, q), ref.Add(pr, qr))
-	expect("Sub", out.Sub(p, q), ref.Sub(pr, qr))
-	expect("Neg", out.Neg(p), ref.Neg(pr))
-	expect("Sum", out.Sum([]*RistrettoPoint{p, q, q}), ref.Add(ref.Add(pr, qr), qr))
+	expect("Add", ro().Add(p, q), ref.Add(pr, qr))
+	expect("Sub", ro().Sub(p, q), ref.Sub(pr, qr))
+	expect("Neg", ro().Neg(p), ref.Neg(pr))
+	expect("Sum", ro().Sum([]*RistrettoPoint{p, q, q}), ref.Add(ref.Add(pr, qr), qr))
 	sP := h.C03Expected([]h.C03Term{{P: c.P, S: c.S}}, false)
-	expect("Mul", out.Mul(p, s), sP)
-	expect("MulBasepoint(NewRistrettoBasepointTable)", out.MulBasepoint(NewRistrettoBasepointTable(p), s), sP)
+	expect("Mul", ro().Mul(p, s), sP)
+	expect("MulBasepoint(NewRistrettoBasepointTable)", ro().MulBasepoint(NewRistrettoBasepointTable(p), s), sP)
 	two := []h.C03Term{{P: c.P, S: c.S}, {P: c03iSpecB, S: c.S2}}
-	expect("DoubleScalarMulBasepointVartime", out.DoubleScalarMulBasepointVartime(s, p, s2), h.C03Expected(two, false))
+	expect("DoubleScalarMulBasepointVartime", ro().DoubleScalarMulBasepointVartime(s, p, s2), h.C03Expected(two, false))
 	pq := []h.C03Term{{P: c.P, S: c.S}, {P: c.Q, S: c.S2}}
 	wantPQ := h.C03Expected(pq, false)
-	expect("MultiscalarMul", out.MultiscalarMul([]*scalar.Scalar{s, s2}, []*RistrettoPoint{p, q}), wantPQ)
-	expect("MultiscalarMulVartime", out.MultiscalarMulVartime([]*scalar.Scalar{s, s2}, []*RistrettoPoint{p, q}), wantPQ)
-	expect("ExpandedMultiscalarMulVartime", out.ExpandedMultiscalarMulVartime([]*scalar.Scalar{s}, []*ExpandedRistrettoPoint{NewExpandedRistrettoPoint(p)}, []*scalar.Scalar{s2}, []*RistrettoPoint{q}), wantPQ)
+	expect("MultiscalarMul", ro().MultiscalarMul([]*scalar.Scalar{s, s2}, []*RistrettoPoint{p, q}), wantPQ)
+	expect("MultiscalarMulVartime", ro().MultiscalarMulVartime([]*scalar.Scalar{s, s2}, []*RistrettoPoint{p, q}), wantPQ)
+	expect("ExpandedMultiscalarMulVartime", ro().ExpandedMultiscalarMulVartime([]*scalar.Scalar{s}, []*ExpandedRistrettoPoint{NewExpandedRistrettoPoint(p)}, []*scalar.Scalar{s2}, []*RistrettoPoint{q}), wantPQ)
 	r.Eval(2)
 	same := ref.RistEqual(pr, qr)
 	if got := p.Equal(q); (got == 1) != same {
